@@ -218,6 +218,8 @@ func SpecIs4In6(s string) bool {
 //@   trusted
 //@   requires count >= 0
 //@   ensures fresh(result) && len(result) == len(b)*count && (result != nil || len(b)*count == 0)
+//@   ensures[single] len(b) == 1 ==> (forall i int :: {result[i]} 0 <= i && i < len(result) ==> result[i] == b[0])
+//@   ensures[zeros] len(b) == 1 && b[0] == 0 ==> string(result) == specZeros(count)
 
 // an IPv4 address field that the encoder can write: absent, or 4 bytes (the form FromBytes produces), or 16 bytes in
 // IPv4-mapped form (net.IPv4): the domain stated in property C01
@@ -345,6 +347,8 @@ func specZeros(n int) string {
 }
 
 // specIP4: the 4 octets written for an address field: zeros for an absent address
+//@ contract specIP4
+//@   ensures len(result) == 4
 func specIP4(ip string) string {
 	if len(ip) == 4 {
 		return ip
@@ -353,6 +357,9 @@ func specIP4(ip string) string {
 }
 
 // specFixed: a name field of size bytes holding at most max bytes of s, zero padded
+//@ contract specFixed
+//@   requires 0 <= max && max <= size
+//@   ensures len(result) == size
 func specFixed(s string, max int, size int) string {
 	if len(s) <= max {
 		return s + specZeros(size-len(s))
@@ -368,13 +375,33 @@ func specHeaderV4(op int, htype int, hlen int, hops int, xid string, secs int, f
 		specIP4(ci) + specIP4(yi) + specIP4(si) + specIP4(gi) + specFixed(chaddr, 16, 16) + specFixed(sname, 63, 64) + specFixed(file, 127, 128) + "\x63\x82\x53\x63"
 }
 
+// The packet is written front to back; each intermediate assertion states the bytes written so far in the order and
+// grouping the writes produce them, so that it follows from the previous one and the contract of one write.
+//@ define v4A(d) = specByte(int(d.OpCode)) + specByte(int(d.HWType)) + specByte(len(d.ClientHWAddr)) + specByte(int(d.HopCount)) + string(d.TransactionID[:]) + specByte(int(d.NumSeconds)/256) + specByte(int(d.NumSeconds)) + specByte(int(d.Flags)/256) + specByte(int(d.Flags))
+//@ define v4B(d) = v4A(d) + specIP4(string(d.ClientIPAddr)) + specIP4(string(d.YourIPAddr)) + specIP4(string(d.ServerIPAddr)) + specIP4(string(d.GatewayIPAddr))
+//@ define v4H(d) = v4B(d) + specFixed(string(d.ClientHWAddr), 16, 16) + specFixed(d.ServerHostName, 63, 64) + specFixed(d.BootFileName, 127, 128) + "\x63\x82\x53\x63"
+//@ define v4Pad(n) = ite(241+n < 300, 300-241-n, 0)
+
 //@ contract (*DHCPv4).ToBytes
 //@   requires ipOK(d.ClientIPAddr) && ipOK(d.YourIPAddr) && ipOK(d.ServerIPAddr) && ipOK(d.GatewayIPAddr)
+//@   let M = mapview(d.Options)
+//@   let E = specEncFrom(M, 0)
+//@   after `buf.Write16(d.Flags)` assert[a] string(buf.Buffer.data) == v4A(d)
+//@   after `writeIP(buf, d.GatewayIPAddr)` assert[b] string(buf.Buffer.data) == v4B(d)
+//@   after `copy(buf.WriteN(16), d.ClientHWAddr)` assert[chaddr] string(buf.Buffer.data) == v4B(d) + specFixed(string(d.ClientHWAddr), 16, 16)
+//@   after `buf.WriteBytes(sname[:])` assert[sname] string(buf.Buffer.data) == v4B(d) + specFixed(string(d.ClientHWAddr), 16, 16) + specFixed(d.ServerHostName, 63, 64)
+//@   after `buf.WriteBytes(file[:])` assert[file] string(buf.Buffer.data) == v4B(d) + specFixed(string(d.ClientHWAddr), 16, 16) + specFixed(d.ServerHostName, 63, 64) + specFixed(d.BootFileName, 127, 128)
+//@   after `buf.WriteBytes(magicCookie[:])` cut[header] string(buf.Buffer.data) == v4H(d) && lexOK(buf) && exact(buf) && exact(buf.Buffer) && buf.err == nil && fresh(buf) && fresh(buf.Buffer) && fresh(buf.Buffer.data) && allocated(buf.Buffer.data) && allocated(buf) && allocated(buf.Buffer)
+//@   after `d.Options.Marshal(buf)` assert[options] string(buf.Buffer.data) == v4H(d) + E
+//@   after `buf.Write8(OptionEnd.Code())` cut[end] string(buf.Buffer.data) == v4H(d) + E + specByte(255) && len(buf.Buffer.data) == 241 + len(E) && lexOK(buf) && exact(buf) && exact(buf.Buffer) && buf.err == nil && fresh(buf) && fresh(buf.Buffer) && fresh(buf.Buffer.data) && allocated(buf.Buffer.data) && allocated(buf) && allocated(buf.Buffer)
+//@   ensures[layout] string(result) == v4H(d) + E + specByte(255) + specZeros(v4Pad(len(E)))
+//@   use lemmaV4Packet(specByte(int(d.OpCode)) + specByte(int(d.HWType)) + specByte(len(d.ClientHWAddr)) + specByte(int(d.HopCount)), string(d.TransactionID[:]), specByte(int(d.NumSeconds)/256) + specByte(int(d.NumSeconds)) + specByte(int(d.Flags)/256) + specByte(int(d.Flags)), specIP4(string(d.ClientIPAddr)), specIP4(string(d.YourIPAddr)), specIP4(string(d.ServerIPAddr)), specIP4(string(d.GatewayIPAddr)), specFixed(string(d.ClientHWAddr), 16, 16), specFixed(d.ServerHostName, 63, 64), specFixed(d.BootFileName, 127, 128), E, v4Pad(len(E)))
 //@   ensures[fresh] fresh(result)
 //@   ensures[min-length] len(result) >= 300
+//@   ensures[length] len(result) == ite(241+len(E) < 300, 300, 241+len(E))
 //@   ensures[hdr-0-4] string(result)[0:4] == specByte(int(d.OpCode)) + specByte(int(d.HWType)) + specByte(len(d.ClientHWAddr)) + specByte(int(d.HopCount))
 //@   ensures[hdr-xid] string(result)[4:8] == string(d.TransactionID[:])
-//@   ensures[hdr-secs-flags] string(result)[8:12] == specU16(int(d.NumSeconds)) + specU16(int(d.Flags))
+//@   ensures[hdr-secs-flags] string(result)[8:12] == specByte(int(d.NumSeconds)/256) + specByte(int(d.NumSeconds)) + specByte(int(d.Flags)/256) + specByte(int(d.Flags))
 //@   ensures[hdr-ciaddr] string(result)[12:16] == specIP4(string(d.ClientIPAddr))
 //@   ensures[hdr-yiaddr] string(result)[16:20] == specIP4(string(d.YourIPAddr))
 //@   ensures[hdr-siaddr] string(result)[20:24] == specIP4(string(d.ServerIPAddr))
@@ -383,6 +410,19 @@ func specHeaderV4(op int, htype int, hlen int, hops int, xid string, secs int, f
 //@   ensures[hdr-sname] string(result)[44:108] == specFixed(d.ServerHostName, 63, 64)
 //@   ensures[hdr-file] string(result)[108:236] == specFixed(d.BootFileName, 127, 128)
 //@   ensures[hdr-cookie] string(result)[236:240] == "\x63\x82\x53\x63"
+//@   ensures[options] string(result)[240:240+len(E)] == E
+//@   ensures[end] string(result)[240+len(E)] == 255
+//@   ensures[padding] string(result)[241+len(E):] == specZeros(len(result) - 241 - len(E))
+
+// lemmaV4Packet: where each piece of a packet assembled front to back lies (pure; lengths are the RFC 2131 field sizes)
+//@ contract lemmaV4Packet
+//@   requires len(a) == 4 && len(xid) == 4 && len(sf) == 4 && len(ci) == 4 && len(yi) == 4 && len(si) == 4 && len(gi) == 4 && len(ch) == 16 && len(sn) == 64 && len(fl) == 128 && pad >= 0
+//@   let T = a + xid + sf + ci + yi + si + gi + ch + sn + fl + "\x63\x82\x53\x63" + e + specByte(255) + specZeros(pad)
+//@   ensures len(T) == 241 + len(e) + pad
+//@   ensures T[0:4] == a && T[4:8] == xid && T[8:12] == sf && T[12:16] == ci && T[16:20] == yi && T[20:24] == si && T[24:28] == gi
+//@   ensures T[28:44] == ch && T[44:108] == sn && T[108:236] == fl && T[236:240] == "\x63\x82\x53\x63"
+//@   ensures T[240:240+len(e)] == e && T[240+len(e)] == 255 && T[241+len(e):] == specZeros(pad)
+func lemmaV4Packet(a, xid, sf, ci, yi, si, gi, ch, sn, fl, e string, pad int) {}
 
 //@ contract (net.IP).To16
 //@   trusted
